@@ -443,7 +443,7 @@ def execute(d, env):
                 vs = m.p[:, m.t[:nv, c]]
                 extra.append(vs[:, 0])
                 extra.append((vs[:, 0] + vs[:, 1]) / 2)
-            P = np.hstack((P, np.array(extra).T))
+            P = np.array(extra).T if d.get("ties_only") else np.hstack((P, np.array(extra).T))
         pts = T(P)
         f = m.element_finder()
         r = f(*pts)
